@@ -192,11 +192,27 @@ def np_unique(interp, args, kwargs, node):
                 ca = lambda q: cnt.content.at(q).term
                 ctx.assume(z3.ForAll([t_], z3.Implies(z3.And(0 <= t_, t_ < nu), ca(t_) <= cnt_(va(t_))), patterns=[ca(t_)]),
                            "lemma:L-inj-count (Lean) a value is drawn without replacement at most as often as it occurs in the source")
+    if isinstance(ek, T_StrT_):
+        # string labels: every element occurs among the unique values, the unique values occur in the argument, and the count of a
+        # unique value is the number of its occurrences (occ: an uninterpreted function of the value, named by the sequence)
+        t_, i_ = z3.Int("t!u"), z3.Int("i!u")
+        va = lambda q: vals.content.at(q).term
+        ca = lambda q: cnt.content.at(q).term
+        upos = z3.Function(f"uniq_pos[{sid}]", z3.IntSort(), z3.IntSort())
+        uidx = z3.Function(f"uniq_idx[{sid}]", z3.IntSort(), z3.IntSort())
+        occ = z3.Function(f"occurrences[{sid}]", z3.StringSort(), z3.IntSort())
+        lab = "extern:numpy.unique(return_counts=True): the distinct values of the argument with their numbers of occurrences"
+        ctx.assume(z3.ForAll([t_], z3.Implies(z3.And(0 <= t_, t_ < nu), z3.And(0 <= upos(t_), upos(t_) < n, arr.content.at(upos(t_)).term == va(t_),
+                                                                            ca(t_) == occ(va(t_)), ca(t_) >= 1)), patterns=[va(t_)]), lab)
+        ctx.assume(z3.ForAll([i_], z3.Implies(z3.And(0 <= i_, i_ < n), z3.And(0 <= uidx(i_), uidx(i_) < nu, va(uidx(i_)) == arr.content.at(i_).term,
+                                                                            occ(arr.content.at(i_).term) >= 1)),
+                             patterns=[arr.content.at(i_).term]), lab)
+        vals.uniq_pair, cnt.uniq_pair = cnt, vals
     ctx.memo[("uniq", sid)] = (vals, cnt)
     return VTuple([interp.born(vals), interp.born(cnt)]) if want_counts else vals
 
 
-from .types import SeqT as types_SeqT, IntT as types_IntT
+from .types import SeqT as types_SeqT, IntT as types_IntT, StrT as T_StrT_
 
 
 @extern("numpy.intersect1d")
@@ -505,10 +521,42 @@ def np_random_rand(interp, args, kwargs, node):
 
 
 def _mask_index(interp, base, idx, node):
-    """a[a >= t] : the sub-vector of the entries satisfying the mask (order kept)"""
+    """a[a >= t] : the sub-vector of the entries satisfying the mask (order kept); b[a >= t] for a vector b of the same length: the
+    entries of b at the positions where the mask holds"""
     if isinstance(base, VList) and base.kind == "ndarray" and isinstance(idx, VObj) and idx.tag == "mask" and idx.of is base:
         return filtered_vector(interp, base, idx.opn, idx.bound)
+    if isinstance(base, VList) and base.kind == "ndarray" and isinstance(base.content, SymSeq) and isinstance(idx, VObj) and idx.tag == "mask" \
+            and isinstance(idx.of.content, SymSeq):
+        return parallel_filter(interp, base, idx.of, idx.opn, idx.bound, node)
     return None
+
+
+def parallel_filter(interp, base, keyvec, opn, bound, node):
+    ctx = interp.ctx
+    n = base.content.length
+    if not interp.spec_mode:
+        short = (interp.current_qualname or "").replace("pyrepseq.", "")
+        ctx.oblige(f"{short}/call-pre[boolean mask has the length of the indexed array]@L{getattr(node, 'lineno', '?')}",
+                   keyvec.content.length == n, kind="call-pre", line=getattr(node, "lineno", None))
+    cmpf = {"GtE": lambda x, y: x >= y, "Gt": lambda x, y: x > y, "LtE": lambda x, y: x <= y, "Lt": lambda x, y: x < y}[opn]
+    holds = lambda t: cmpf(to_real(keyvec.content.at(t)), to_real(bound))
+    m = ctx.fresh("nkept", z3.IntSort())
+    iota = ctx.fresh_fun("kept_pos", z3.IntSort(), z3.IntSort())
+    inv = ctx.fresh_fun("kept_idx", z3.IntSort(), z3.IntSort())
+    j, j2, t = z3.Int("j!pf"), z3.Int("j2!pf"), z3.Int("t!pf")
+    lab = "extern:numpy boolean-mask indexing b[mask]: the entries of b at exactly the positions where the mask holds, in order"
+    ctx.assume(z3.And(m >= 0, m <= n), lab)
+    ctx.assume(z3.ForAll([j], z3.Implies(z3.And(0 <= j, j < m), z3.And(0 <= iota(j), iota(j) < n, holds(iota(j)), inv(iota(j)) == j)),
+                         patterns=[iota(j)]), lab)
+    ctx.assume(z3.ForAll([j, j2], z3.Implies(z3.And(0 <= j, j < j2, j2 < m), iota(j) < iota(j2))), lab)
+    bt = lambda q: base.content.at(q).term
+    ctx.assume(z3.ForAll([t], z3.Implies(z3.And(0 <= t, t < n, holds(t)), z3.And(0 <= inv(t), inv(t) < m, iota(inv(t)) == t,
+                                                                                 bt(iota(inv(t))) == bt(t))),
+                         patterns=[inv(t), bt(t)]), lab)
+    r = VList(SymSeq(m, lambda q: base.content.at(iota(q)), base.content.elem_kind), "ndarray")
+    r.sid = f"{getattr(base, 'sid', 'v')}[mask@L{getattr(node, 'lineno', '?')}]"
+    r.kept = (iota, inv, keyvec, opn, bound, base)
+    return interp.born(r)
 
 
 def filtered_vector(interp, base, opn, bound):
@@ -685,3 +733,27 @@ def _matrix_of(interp, args, kwargs, node):
         finally:
             interp.spec_mode = old_mode
     return VMatrix(to_int(n), to_int(m), cellf)
+
+
+
+@extern("numpy.random.shuffle")
+def np_random_shuffle(interp, args, kwargs, node):
+    """shuffle(x): x is permuted IN PLACE (which permutation: the generator's choice)"""
+    x = args[0]
+    if not (isinstance(x, VList) and isinstance(x.content, SymSeq)) or kwargs or len(args) != 1:
+        raise Unsupported("np.random.shuffle argument form")
+    interp.check_mutable_target(x, node, " shuffled in place")
+    ctx = interp.ctx
+    n = x.content.length
+    pi = ctx.fresh_fun("perm", z3.IntSort(), z3.IntSort())
+    pinv = ctx.fresh_fun("perm_inv", z3.IntSort(), z3.IntSort())
+    j = z3.Int("j!sh")
+    lab = "extern:numpy.random.shuffle permutes its argument in place"
+    ctx.assume(z3.ForAll([j], z3.Implies(z3.And(0 <= j, j < n), z3.And(0 <= pi(j), pi(j) < n, pinv(pi(j)) == j)), patterns=[pi(j)]), lab)
+    old = x.content
+    ctx.assume(z3.ForAll([j], z3.Implies(z3.And(0 <= j, j < n), z3.And(0 <= pinv(j), pinv(j) < n, pi(pinv(j)) == j,
+                                                                        old.at(pi(pinv(j))).term == old.at(j).term)),
+                         patterns=[pinv(j), old.at(j).term]), lab)
+    x.content = SymSeq(n, lambda q: old.at(pi(q)), old.elem_kind)
+    x.shuffled = (pi, pinv)
+    return NONE
